@@ -297,6 +297,8 @@ def _check_best_feature(case, mds, sf, scores2, tb, labels, ref, thr, desc, clas
 
 
 def check(case):
+    if case.get("kind") == "long":
+        return _check_long(case)
     from mokapot import qvalues
     from mokapot import dataset as mds
 
@@ -448,3 +450,54 @@ def check(case):
         classes.append("no-decoys")
     classes.append("light" if light else "full")
     return {"nontrivial": nontrivial, "classes": classes, "counters": counters}
+
+
+# ---------------------------------------------------------------------------
+# One very long vector per run: counts beyond 2**24 (the largest integer a float32 accumulator can still increment)
+# ---------------------------------------------------------------------------
+def _check_long(case):
+    """tdc on n > 2**24 PSMs with distinct scores against an integer cumulative-count implementation of the defining
+    formula (no ties, so the formula is one running minimum over the ranked list)."""
+    import mokapot.qvalues as mq
+
+    n, desc = int(case["n"]), bool(case["desc"])
+    rng = np.random.default_rng(case["seed"])
+    is_target = rng.random(n) < case["target_frac"]
+    # distinct, exactly representable scores in a random order; targets tend to rank better than decoys
+    rank = rng.permutation(n).astype(np.float64)
+    rank[~is_target] *= 0.25
+    order = np.argsort(-rank, kind="stable")  # best first
+    scores = np.empty(n, dtype=np.float64)
+    scores[order] = np.arange(n, 0, -1, dtype=np.float64) if desc else np.arange(1, n + 1, dtype=np.float64)
+    q = np.asarray(guarded(mq.tdc, scores, is_target, desc, sig="tdc"), dtype=np.float64)
+    require(q.shape == (n,), "shape", f"tdc returned shape {q.shape} for {n} scores")
+    t = np.cumsum(is_target[order], dtype=np.int64)
+    d = np.cumsum(~is_target[order], dtype=np.int64)
+    fdr = np.where(t > 0, (d + 1) / np.maximum(t, 1), 1.0)
+    ref_sorted = np.minimum(np.minimum.accumulate(fdr[::-1])[::-1], 1.0)
+    ref = np.empty(n, dtype=np.float64)
+    ref[order] = ref_sorted
+    bad = np.flatnonzero(np.abs(q - ref) > 3e-7 * np.maximum(ref, 1e-30))
+    if bad.size:
+        i = int(bad[0])
+        raise Violation("formula:tdc-long", f"n={n} ({int(t[-1])} targets, {int(d[-1])} decoys, desc={desc}): q-value of PSM {i} is {q[i]!r}, the defining "
+                                            f"formula gives {ref[i]!r}; {bad.size} of {n} q-values deviate")
+    return {"nontrivial": bool(t[-1] > 2**24), "classes": ["long-vector", "targets>2**24" if t[-1] > 2**24 else "targets<=2**24"],
+            "counters": {"long_vector_rows": n}}
+
+
+def extra(tier, seed, shard, nshards, stats):
+    """Shard 0: one vector with more than 2**24 targets (about 20 s, 1.5 GB); thorough adds one with > 2**24 decoys on shard 1."""
+    cases = []
+    if shard == 0:
+        cases.append({"kind": "long", "n": 2**24 + 2**20 + seed % 1000, "target_frac": 0.985, "desc": bool(seed % 2), "seed": seed})
+    elif shard == 1 and tier != "quick":
+        cases.append({"kind": "long", "n": 2 * 2**24 + 2**21 + seed % 1000, "target_frac": 0.5, "desc": not bool(seed % 2), "seed": seed + 1})
+    for case in cases:
+        stats.evaluations += 1
+        try:
+            obs = _check_long(case)
+        except Violation as v:
+            stats.failure = {"case": case, "signature": v.signature, "message": v.message}
+            return
+        stats.observe(case, obs)
